@@ -7,17 +7,30 @@
      VIOL multiq:bytes-differ   anything else that differs from the single-thread output
      VIOL multiq:panic / multiq:hang   the multi-thread run died although the single-thread run did not;
                                 multiq:hang also when the single-thread run panics (terminates with a
-                                message) and the multi-thread run blocks for ever (planted case
-                                `planted-panic <literal>`, see C15_worker_panic_blocks_refuted)
-   CORRESPONDENCE with the extracted Coq model (Model/MultiQ.v):
+                                message) and the multi-thread run blocks for ever (planted cases
+                                `planted-panic <literal>`: the defect K13 repaired by
+                                repo_patches/F10-multiquery-drop-sender.patch; the model of the code
+                                before the repair is C15_worker_panic_blocks_refuted).  Single-thread
+                                panics AND multi-thread panics = agreement (C15_outcome); a multi-thread
+                                run that returns although the single-thread one panics is
+                                multiq:bytes-differ
+   CORRESPONDENCE with the extracted Coq model (Model/MultiQ.v, the repaired system drop_tx = true):
      DIFF parse            mq_parse_file (file bytes) <> parse_queries_file
      DIFF render-single    mq_render_single with the single-thread answers <> single-thread bytes
      DIFF trace-invalid    the event log of hook H4b is not a run of mq_step (mq_valid_event)
      DIFF model-output     output of the model after replaying the log (and the canonical completion
-                           of the workers' exits, write, join) <> multi-thread bytes
+                           of the workers' exits, write, join) <> multi-thread bytes; planted cases:
+                           the model (canonical completion and a pseudo-random schedule) does not end
+                           in the main thread's panic in the recv loop (C15_worker_panic_propagates),
+                           or the implementation panics with another message than
+                           "All workers died unexpectedly."
    Runs without an event log (no hook, or j = 1 which takes the single-thread path) are compared
    with the model under a pseudo-random schedule instead (STAT traces_skipped_no_events). *)
 open Blocks
+
+(* the system the implementation is compared with: the repaired code (the main thread drops its
+   own Sender: Model/MultiQ.v, Section variable drop_tx) *)
+let drop_tx = true
 
 let unescape (s : string) : string =
   let b = Buffer.create (String.length s) in
@@ -97,6 +110,8 @@ let show_event (e : ev) : string =
   | Mdl.MultiQ.EDie (w, i) -> Printf.sprintf "die(%d,%d)" (n w) (n i)
   | Mdl.MultiQ.EWrite -> "write"
   | Mdl.MultiQ.EJoin -> "join"
+  | Mdl.MultiQ.EClosed -> "closed"
+  | Mdl.MultiQ.EJoinDead w -> Printf.sprintf "join-dead(%d)" (n w)
 
 (* splitmix-like generator for the model-side schedules *)
 let mk_rng (seed : int) =
@@ -117,13 +132,35 @@ let enabled (s : string Mdl.MultiQ.mq_state) : ev list =
          | (i, _) :: _ -> evs := Mdl.MultiQ.EPull (wn, i) :: !evs
          | [] -> evs := Mdl.MultiQ.EPullNone wn :: !evs)
       | Mdl.MultiQ.WBusy (i, _) -> evs := Mdl.MultiQ.ESend (wn, i) :: Mdl.MultiQ.EDie (wn, i) :: !evs
-      | Mdl.MultiQ.WExited -> ()) s.Mdl.MultiQ.mq_workers;
+      | Mdl.MultiQ.WExited -> ()
+      | Mdl.MultiQ.WDied (_, _) ->
+        (match s.Mdl.MultiQ.mq_main with
+         | Mdl.MultiQ.PWritten _ -> evs := Mdl.MultiQ.EJoinDead wn :: !evs
+         | _ -> ())) s.Mdl.MultiQ.mq_workers;
   (match s.Mdl.MultiQ.mq_chan, s.Mdl.MultiQ.mq_main with
    | ((i, _), _) :: _, Mdl.MultiQ.PCollect (Model.S _) -> evs := Mdl.MultiQ.ERecv i :: !evs
+   | [], Mdl.MultiQ.PCollect (Model.S _) -> evs := Mdl.MultiQ.EClosed :: !evs
    | _, Mdl.MultiQ.PCollect Model.O -> evs := Mdl.MultiQ.EWrite :: !evs
    | _, Mdl.MultiQ.PWritten _ -> evs := Mdl.MultiQ.EJoin :: !evs
    | _ -> ());
   !evs
+
+(* a pseudo-random schedule of the model: at most n enabled actions from s *)
+let random_schedule answer panics rcmp rshow (rnd : int -> int) (s : string Mdl.MultiQ.mq_state) (n : int)
+  : string Mdl.MultiQ.mq_state =
+  let rec go s n =
+    if n = 0 then s else
+      let valid = List.filter_map (fun e -> Mdl.MultiQ.mq_valid_event answer panics rcmp rshow drop_tx s e) (enabled s) in
+      match valid with
+      | [] -> s
+      | _ -> go (List.nth valid (rnd (List.length valid))) (n - 1)
+  in
+  go s n
+
+let contains (s : string) (sub : string) : bool =
+  let n = String.length s and m = String.length sub in
+  let rec go i = i + m <= n && (String.sub s i m = sub || go (i + 1)) in
+  go 0
 
 let check (b : block) : verdict list =
   let out = ref [] in
@@ -190,23 +227,40 @@ let check (b : block) : verdict list =
            if not p then add (Diff ("model-output", "the model's single-thread loop does not panic"));
            List.iter (fun r ->
                match r with
-               | tag :: j :: _ :: _ :: _ :: status :: _ ->
+               | tag :: j :: _ :: _ :: _ :: status :: rest ->
                  bump "runs";
+                 bump "planted_runs";
                  let j = int_of_string j in
-                 let init : string Mdl.MultiQ.mq_state = Mdl.MultiQ.mq_init w (Conv.nat_of_int j) in
-                 let s' = Mdl.MultiQ.mq_complete answer panics rcmp rshow (Conv.nat_of_int (3 * nq + j + 8)) init in
-                 let stuck = (match s'.Mdl.MultiQ.mq_main with Mdl.MultiQ.PCollect (Model.S _) -> true | _ -> false)
-                             && List.for_all (fun e -> Mdl.MultiQ.mq_valid_event answer panics rcmp rshow s' e = None) (enabled s') in
+                 let where = Printf.sprintf "run %s j=%d" tag j in
+                 (* the model: j = 1 takes the single-thread loop (panics, checked above); otherwise
+                    every maximal run of the repaired system ends in the main thread's panic in the
+                    recv loop with nothing written (C15_worker_panic_propagates): the canonical
+                    completion and one pseudo-random schedule *)
+                 if j <> 1 then begin
+                   let init : string Mdl.MultiQ.mq_state = Mdl.MultiQ.mq_init w (Conv.nat_of_int j) in
+                   let n_ev = 3 * nq + j + 8 in
+                   let s1 = Mdl.MultiQ.mq_complete answer panics rcmp rshow drop_tx (Conv.nat_of_int n_ev) init in
+                   let rnd = mk_rng (Hashtbl.hash (b.id, tag)) in
+                   let s2 = random_schedule answer panics rcmp rshow rnd init n_ev in
+                   List.iter (fun (what, (s' : string Mdl.MultiQ.mq_state)) ->
+                       match s'.Mdl.MultiQ.mq_main with
+                       | Mdl.MultiQ.PPanicked None -> bump "model_predicts_main_panic"
+                       | _ -> add (Diff ("model-output", where ^ ": the model (" ^ what ^ ") does not end in the main thread's panic")))
+                     ["canonical completion", s1; "pseudo-random schedule", s2]
+                 end;
                  (match status with
                   | "hang" ->
-                    if j > 1 && not stuck then add (Diff ("model-output", "the implementation blocks, the model does not"))
-                    else bump "model_predicts_block";
                     add (Viol ("multiq:hang",
-                               Printf.sprintf "run %s j=%d: the single-thread evaluation panics (%s), the multi-thread one never returns"
-                                 tag j (String.concat " " m)))
-                  | "panic" -> if j > 1 && stuck then add (Diff ("model-output", "the model blocks, the implementation panics"))
+                               Printf.sprintf "%s: the single-thread evaluation panics (%s), the multi-thread one never returns \
+                                               (the model of the repaired code panics with 'All workers died unexpectedly.')"
+                                 where (String.concat " " m)))
+                  | "panic" ->
+                    let msg = String.concat " " rest in
+                    if j <> 1 && not (contains msg "All workers died unexpectedly") then
+                      add (Diff ("model-output", where ^ ": panics, but not with 'All workers died unexpectedly.': " ^ msg))
+                    else bump "planted_panics_agreed"
                   | _ -> add (Viol ("multiq:bytes-differ",
-                                    Printf.sprintf "run %s j=%d returns although the single-thread evaluation panics" tag j)))
+                                    Printf.sprintf "%s returns although the single-thread evaluation panics" where)))
                | _ -> add (Diff ("driver", "bad run line"))) runs
          | _ ->
            (* an operation that panics on a well-formed query without being planted *)
@@ -303,7 +357,7 @@ let check (b : block) : verdict list =
                    let init : string Mdl.MultiQ.mq_state = Mdl.MultiQ.mq_init w jn in
                    let fuel = Conv.nat_of_int (3 * nq + j + 8) in
                    let finish (s : string Mdl.MultiQ.mq_state) (what : string) =
-                     let s' = Mdl.MultiQ.mq_complete answer panics rcmp rshow fuel s in
+                     let s' = Mdl.MultiQ.mq_complete answer panics rcmp rshow drop_tx fuel s in
                      match s'.Mdl.MultiQ.mq_main with
                      | Mdl.MultiQ.PJoined o ->
                        let o = Conv.ocaml_string o in
@@ -332,7 +386,7 @@ let check (b : block) : verdict list =
                           let rec go s k = function
                             | [] -> Stdlib.Ok s
                             | e :: tl ->
-                              (match Mdl.MultiQ.mq_valid_event answer panics rcmp rshow s e with
+                              (match Mdl.MultiQ.mq_valid_event answer panics rcmp rshow drop_tx s e with
                                | Some s' -> go s' (k + 1) tl
                                | None -> Stdlib.Error (k, e))
                           in
@@ -355,19 +409,7 @@ let check (b : block) : verdict list =
                       bump "traces_skipped_no_events";
                       (* a pseudo-random schedule of the model *)
                       let rnd = mk_rng (Hashtbl.hash (b.id, tag)) in
-                      let rec go s n =
-                        if n = 0 then s else
-                          match enabled s with
-                          | [] -> s
-                          | evs ->
-                            let valid = List.filter_map (fun e ->
-                                match Mdl.MultiQ.mq_valid_event answer panics rcmp rshow s e with
-                                | Some s' -> Some s' | None -> None) evs in
-                            (match valid with
-                             | [] -> s
-                             | _ -> go (List.nth valid (rnd (List.length valid))) (n - 1))
-                      in
-                      let s = go init (3 * nq + j + 8) in
+                      let s = random_schedule answer panics rcmp rshow rnd init (3 * nq + j + 8) in
                       finish s "a pseudo-random schedule")
                  | _ -> add (Diff ("driver", "bad run line")))
               | _ -> add (Diff ("driver", "bad run line"))) runs
